@@ -1,7 +1,7 @@
 """C20 — well-typed misuse fails cleanly and never corrupts an object."""
 from vlib import *
 from props.common import *
-import io, inspect, copy as _copy
+import io, inspect, re, copy as _copy
 
 ID = 'C20'
 COQ_PROPS = ['Props/C20.v']
@@ -11,7 +11,9 @@ RULE = ('every public callable of Bits, BitArray, ConstBitStream, BitStream, Arr
         'malformed, values at and beyond range limits), in sequences of 4..12 calls on one object, under msb0 and lsb0; every exception must be one of the documented types and afterwards every object must '
         'be valid (immutables unchanged, len == len(bin), 0 <= pos <= len, options as left) - the receiver, the operands and every bitstring object (or Array) the call RETURNS, yields or holds in a list: each is probed '
         '(len/bin/pos evaluable, repr, str, ==, slicing, copies, iteration, hash, peek(0)/read(0); fresh mutable results are also changed in place, which must not reach the receiver); a systematic pass over every '
-        'object-returning route (operators, slices, copies, constructors, join/cut/split/unpack/pack/pickle, stream reads, in-place operators) x four classes x both numberings; streams positioned at the end then one mutator. non-trivial = a call that raises; distinct by (class, method, arguments)')
+        'object-returning route (operators, slices, copies, constructors, join/cut/split/unpack/pack/pickle, stream reads, in-place operators) x four classes x both numberings; streams positioned at the end then one mutator; every spelling of a dtype / format argument (names with lengths in every form, the 13 struct codes with each prefix @ = < > and bare, counts and several codes, Dtype objects in every call shape incl. scales, keyword lengths, '
+        'array.array type codes, and the malformed neighbours of each) x every callable that takes one (Array(...) in eight shapes, the dtype setter, astype, Array.pp, extend/equals with array.array, Dtype() in its call shapes then build/parse, unpack/read/peek/readlist/peeklist, '
+        'pack, token strings to constructors / fromstring / +, keyword construction, attribute access and assignment, pp, byteswap) x both numberings, 60 spellings in sequence on one receiver: documented exceptions only, a refused dtype assignment leaves dtype and data as they were. non-trivial = a call that raises; distinct by (class, method, arguments)')
 ASSUMPTIONS = ['documented exception types: ValueError (CreationError, InterpretError), IndexError (ReadError), TypeError, bitstring.Error (ByteAlignError), OSError, and EOFError for fromfile; '
                'sizes are kept feasible (no 2^65-bit allocations)']
 ALLOWED = {'ValueError', 'IndexError', 'ReadError', 'TypeError', 'BsError', 'ByteAlignError', 'Other:OSError', 'Other:FileNotFoundError', 'Other:EOFError', 'Other:UnsupportedOperation', 'StopIteration_gen'}
@@ -203,6 +205,8 @@ def gen_cases(rng, tier):
             yield {'op': 'program', 'cls': cls, 'bits': rand_bits(rng, L), 'lsb0': rng.random() < 0.3, 'pos': 0, 'adtype': 'uint8', 'steps': reach + [mut] + tail}
     # every route that hands back a bitstring object, on every class, in both bit numberings: each object that comes back is probed like any other object of its class
     yield from gen_derive(rng, tier)
+    # every documented spelling of a dtype / format argument (and the malformed neighbours of each) handed to every callable that takes one
+    yield from gen_dtypespell(rng, tier)
 
 # expressions that return (or yield, or hold) bitstring objects. s: the receiver (class under test, some position), t: a short Bits, u: a Bits as long as s, w: a mutable copy of u.
 # {k} shift / read length, {a}:{b}:{st} slice, {m} small factor, {g} chunk size >= 1, {h} a length within s
@@ -238,6 +242,267 @@ def gen_derive(rng, tier):
                 if cls in ('ConstBitStream', 'BitStream'):       # the position is put back now and then (the reads run it to the end)
                     out = [x for i, e in enumerate(out) for x in ([f"setattr(s, 'pos', min({rng.choice([0, pos, pos, L // 2])}, len(s)))"] if i % 3 == 0 else []) + [e]]
                 yield {'op': 'derive', 'cls': cls, 'bits': rand_bits(rng, L), 'pos': pos, 'lsb0': lsb0, 't': rand_bits(rng, rng.choice([1, 3, 8, 9])), 'u': rand_bits(rng, L), 'exprs': out}
+
+
+# ---------------------------------------------------------------------------------------------------------------------------------------------------
+# EVERY SPELLING OF A DTYPE / FORMAT ARGUMENT x EVERY CALLABLE THAT TAKES ONE. The documentation spells a data type as: a name with a length ('uint8',
+# 'uint:8', 'u8', 'float32', 'hex4', 'bytes2', 'bool', 'ue', 'e4m3mxfp' ...), a struct-module code with a byte-order prefix ('@h', '=H', '<q', '>d': the
+# thirteen codes b B h H l L i I q Q e f d, each with each of @ = < >; several codes and counts in format strings), a Dtype object (token, token + length,
+# keywords, with a scale, 'auto' scale for new Arrays), a keyword for the length ('uint:n', n=8), and array.array type codes. The callables: Array(...),
+# the Array.dtype setter, Array.astype, Array.pp, Array.extend / Array(...) / equals with an array.array, Dtype(...) in each of its call shapes then build /
+# parse, unpack / read / peek / readlist / peeklist, pack (string, list, keyword), token strings handed to the constructors and fromstring, keyword
+# construction, attribute access and assignment under a dtype name, pp, byteswap. Whatever is handed in - a documented spelling, or a malformed neighbour
+# of one (unknown code after a valid prefix, valid code after an unknown prefix, doubled or misplaced prefix, wrong / zero / missing / textual length ...) -
+# the call succeeds or raises a documented exception type, and the receiver (same dtype and data after a refused assignment), the operands and the result
+# are valid objects afterwards; the options are as they were.
+DT_NAMES = ['uint', 'int', 'bin', 'oct', 'hex', 'bytes', 'bits', 'bool', 'float', 'floatbe', 'floatle', 'floatne', 'bfloat', 'bfloatbe', 'bfloatle', 'bfloatne', 'uintbe', 'uintle', 'uintne',
+            'intbe', 'intle', 'intne', 'ue', 'se', 'uie', 'sie', 'pad', 'p3binary', 'p4binary', 'e4m3mxfp', 'e5m2mxfp', 'e3m2mxfp', 'e2m3mxfp', 'e2m1mxfp', 'e8m0mxfp', 'mxint', 'u', 'i', 'b', 'o', 'h', 'f']
+DT_LENGTHS = [0, 1, 2, 3, 4, 6, 7, 8, 9, 12, 16, 17, 24, 32, 33, 64, 65, 128, 1000, 100000]
+STRUCT_CODES = 'bBhHlLiIqQefd'
+STRUCT_PREFIXES = '@=<>'
+DT_MALFORMED = ['', ' ', ':', ':8', '8', '08', 'uint:', 'uint::8', 'uint8:8', 'uint:8:8', 'uint=8', 'uint:8=3', 'uint8=3', 'uint:n', 'uint:-8', 'uint-8', 'uint:+8', 'uint:8.0', 'uint:0x8', 'uint:1e1', 'UINT8', 'Uint:8',
+                'uint８', 'uint:٨', 'uint,8', 'uint8,uint8', 'uint8, hex', '2*uint8', '0*uint8', '(uint8)', 'uint8)', '(uint8', 'uint8 ', ' uint8', '\tuint8\n', 'u int8', 'uint 8', 'uint_8', '_uint8', 'uint8_',
+                'uint' + '0' * 40 + '8', 'None', 'auto', 'float', 'float:17', 'float:0', 'f8', 'bfloat:8', 'bfloat32', 'bool:2', 'bool0', 'ue:8', 'se3', 'uie:0', 'pad', 'pad:0', 'bytes:0', 'bytes', 'bits', 'bits0', 'hex', 'hex:0', 'hex3',
+                'oct:4', 'bin', 'bin0', 'e4m3mxfp:8', 'e4m3mxfp7', 'mxint:7', 'mxint16', 'p4binary:4', 'e8m0mxfp8', 'e2m1mxfp4', 'e3m2mxfp6', 'e2m3mxfp:8', 'uintle:12', 'uintbe0', 'intne:8', 'floatle:24', 'int0', 'int:1',
+                'uint:n, uint:n', 'dtype', 'length', 'x', 'x8', 'uintt8', 'uin', 'in', 't8', 'hexx', '0x8', '0b1', '0o7', 'uint8=', '=uint8', '=', 'a' * 300, 'uint:' + '9' * 5]
+
+def struct_spellings(rng, n_bad):
+    good = [p + c for p in STRUCT_PREFIXES for c in STRUCT_CODES]                                   # every prefix x every code
+    bare = list(STRUCT_CODES)
+    multi, bad = [], []
+    for p in STRUCT_PREFIXES:
+        multi += [p + rng.choice(['2', '1', '3', '0', '10', '']) + rng.choice(STRUCT_CODES) + rng.choice(['', '', rng.choice(STRUCT_CODES), '2' + rng.choice(STRUCT_CODES)]) for _ in range(4)]
+        bad += [p, p + p + rng.choice(STRUCT_CODES), rng.choice(STRUCT_CODES) + p, p + ' ' + rng.choice(STRUCT_CODES), p + rng.choice(STRUCT_CODES) + ':8', p + rng.choice(STRUCT_CODES) + '8', p + rng.choice(STRUCT_CODES) + '=1',
+                p + '8', p + 'uint8', p + rng.choice(STRUCT_CODES) + p + rng.choice(STRUCT_CODES), p + rng.choice(STRUCT_CODES) + ',' + p + rng.choice(STRUCT_CODES)]
+        bad += [p + c for c in 'xcspPnN?uwtgGeEZ09_']                                                 # codes of the struct module bitstring does not document (and non-codes) after a valid prefix
+    bad += [q + c for q in '!^~|#&%+-*' for c in rng.sample(STRUCT_CODES, 3)]                           # a valid code after a character that is not a documented prefix ('!' is struct's, not bitstring's)
+    return good, bare, multi, (bad if n_bad is None else rng.sample(bad, min(n_bad, len(bad))))
+
+def named_spellings(rng, per_name):
+    out = []
+    for nm in DT_NAMES:
+        Ls = [None] + (DT_LENGTHS if per_name is None else rng.sample(DT_LENGTHS, per_name))
+        for L in Ls:
+            if L is None: out.append(nm); continue
+            out.append(rng.choice([f'{nm}{L}', f'{nm}:{L}', f'{nm}{L}', f'{nm}:{L}', f'{nm} : {L}', f' {nm}{L} ', f'{nm}:0{L}']) if per_name is not None else f'{nm}{L}')
+            if per_name is None: out += [f'{nm}:{L}', f'{nm} : {L}']
+    return out
+
+DT_OBJECTS = [['uint', 8, None], ['uint8', None, None], ['u8', None, None], ['int', 7, None], ['float', 16, None], ['float', 32, None], ['float64', None, None], ['floatle', 32, None], ['floatne', 64, None], ['bfloat', None, None],
+              ['bfloat', 16, None], ['bfloatle', None, None], ['hex', 4, None], ['hex', None, None], ['bin', 3, None], ['oct', 3, None], ['bytes', 2, None], ['bits', 5, None], ['bool', None, None], ['bool', 1, None], ['ue', None, None],
+              ['se', None, None], ['uie', None, None], ['pad', 3, None], ['e4m3mxfp', None, 2], ['e4m3mxfp', None, 0.5], ['e5m2mxfp', None, 'auto'], ['mxint', None, 0.015625], ['p4binary', None, None], ['p3binary', 8, None], ['e2m1mxfp', None, 4],
+              ['e3m2mxfp', None, None], ['e2m3mxfp', 6, None], ['e8m0mxfp', None, None], ['uint', 0, None], ['hex', 0, None], ['uint', 8, 2], ['float16', None, 'auto'], ['uintne', 16, None], ['intle', 24, None], ['uintbe', 8, None],
+              ['float', 64, 0.25], ['uint', 8, -1], ['int', 8, 1e300], ['uint', 8, 0], ['float', 32, 'inf'], ['float', 32, 'nan'], ['uint', 8, True], ['uint', 1000, None], ['int', 1, None], ['bits', None, None], ['bytes', None, None],
+              ['uint', None, None], ['float', None, None], ['uint', -1, None], ['float', 17, None], ['ue', 8, None], ['bogus', 8, None], ['uint8', 8, None], ['>h', None, None], ['@H', None, None], ['uint', True, None], ['mxint', 8, 'auto']]
+DT_STYLES = ['pos', 'kw', 'token', 'from_dtype', 'pos', 'kw']
+
+ARRAY_ROUTES = ['array_ctor', 'array_ctor_vals', 'array_ctor_n', 'array_ctor_bytes', 'array_ctor_kw', 'array_ctor_bits', 'array_ctor_trailing', 'array_ctor_array', 'dtype_setter', 'astype', 'array_pp', 'array_arrayarray']
+DTYPE_ROUTES = ['dtype_new', 'dtype_new_scale', 'dtype_name_len', 'dtype_kw', 'dtype_build_parse', 'dtype_twice']
+BITS_ROUTES = ['unpack', 'unpack_list', 'unpack_kwlen', 'read', 'peek', 'readlist', 'readlist_list', 'peeklist', 'pack', 'pack_list', 'pack_kw', 'pack_kwlen', 'ctor_token', 'fromstring', 'ctor_kw', 'ctor_kw_len', 'getattr', 'setattr',
+               'bits_pp', 'byteswap', 'add_token']
+STREAM_ONLY = ('read', 'peek', 'readlist', 'readlist_list', 'peeklist')
+MUTABLE_ONLY = ('setattr', 'byteswap')
+STR_ONLY = ('array_pp', 'pack', 'pack_list', 'pack_kw', 'pack_kwlen', 'ctor_token', 'fromstring', 'ctor_kw', 'ctor_kw_len', 'getattr', 'setattr', 'bits_pp', 'byteswap', 'add_token', 'unpack_kwlen', 'dtype_name_len', 'dtype_kw',
+            'dtype_new_scale')       # routes whose documentation takes a string (the other routes also take Dtype objects)
+ATTR_ROUTES = ('getattr', 'setattr')         # an unknown attribute name is Python's own AttributeError
+SPELL_VALUES = [[1, 2, 3], [0, 255, -1], [0.5, -2.0], [{'str': 'a'}, {'str': 'ff'}], [{'bytes': [120, 121]}], [True, False, True], [], [{'bits': '101'}], [1e40], [{'str': '1'}, 2]]
+
+def gen_dtypespell(rng, tier):
+    quick = tier == 'quick'
+    typecodes = [{'typecode': tc, 'target': tg} for tc in 'bBuhHiIlLqQfdw' for tg in ['=', '@', '<', '>', 'uint8', 'float32', 'int64']]
+    for rnd in range(1 if quick else 2):
+        good, bare, multi, bad = struct_spellings(rng, 40 if quick else None)
+        named = named_spellings(rng, 2 if quick else None)
+        strs = [{'str': x} for x in good + bare + multi + bad + named + DT_MALFORMED]
+        objs = [{'dtype': d, 'style': st} for d in DT_OBJECTS for st in (rng.sample(DT_STYLES[:4], 1) if quick else DT_STYLES[:4])]
+        for route in ARRAY_ROUTES + DTYPE_ROUTES + BITS_ROUTES:
+            if route == 'array_arrayarray': pool = list(typecodes)
+            else:
+                pool = list(strs) + ([] if route in STR_ONLY else list(objs))
+                if quick:
+                    # every prefix x every code always; the rest sampled
+                    rest = [x for x in pool if x.get('str') not in good]
+                    pool = [{'str': x} for x in good] + rng.sample(rest, min(len(rest), 120))
+            rng.shuffle(pool)
+            chunk = 60
+            for i in range(0, len(pool), chunk):
+                cls = rng.choice(CLASSES)
+                if route in STREAM_ONLY: cls = rng.choice(['ConstBitStream', 'BitStream'])
+                if route in MUTABLE_ONLY: cls = rng.choice(MUTABLE)
+                L = rng.choice([0, 7, 8, 16, 24, 32, 64, 65, 128, 200])
+                yield {'op': 'dtypespell', 'route': route, 'cls': cls, 'lsb0': rng.random() < (0.3 if quick else 0.5), 'bits': rand_bits(rng, L), 'pos': rng.choice([0, 0, L // 2, L]),
+                       'adtype': rng.choice(['uint8', 'uint8', 'int16', 'float32', 'hex4', 'bytes2', 'bool', 'bits3', '<h', 'e4m3mxfp']), 'nbytes': rng.choice([16, 16, 0, 1, 24]), 'trail': rand_bits(rng, rng.choice([0, 0, 1, 3])),
+                       'vals': rng.choice(SPELL_VALUES), 'spells': pool[i:i + chunk]}
+
+def mk_spell(sp):
+    """the argument a spelling stands for: a str, or a Dtype object built in one of the documented call shapes"""
+    from bitstring import Dtype
+    if 'str' in sp: return sp['str']
+    tok, ln, sc = sp['dtype']
+    if isinstance(sc, str) and sc != 'auto': sc = float(sc)
+    st = sp['style']
+    if st == 'token': return Dtype(tok if ln is None else f'{tok}{ln}') if sc is None else Dtype(tok if ln is None else f'{tok}{ln}', scale=sc)
+    if st == 'kw': d = Dtype(tok, **({} if ln is None else {'length': ln}), **({} if sc is None else {'scale': sc}))
+    else: d = Dtype(tok, ln, sc) if sc is not None else (Dtype(tok, ln) if ln is not None else Dtype(tok))
+    if st == 'from_dtype': d = Dtype(d)
+    return d
+
+def array_facts(a):
+    """None or what is wrong with the Array a as an object: its data is its items followed by the trailing bits, its item size is its dtype's"""
+    try: return array_facts_(a)
+    except Exception as e: return f'Array: asking for its dtype / itemsize / len / trailing_bits / tolist raises {type(e).__name__}: {str(e)[:70]}'
+
+def array_facts_(a):
+    from bitstring import Dtype
+    d = a.dtype
+    if not isinstance(d, Dtype): return f'its dtype is a {type(d).__name__}'
+    if not (isinstance(a.itemsize, int) and a.itemsize > 0): return f'its itemsize is {a.itemsize!r}'
+    if d.bitlength != a.itemsize: return f'itemsize {a.itemsize} but the dtype {d} has {d.bitlength} bits'
+    n = len(a); t = len(a.trailing_bits)
+    if n * a.itemsize + t != len(a.data) or not 0 <= t < a.itemsize: return f'{n} items of {a.itemsize} bits and {t} trailing bits for {len(a.data)} bits of data'
+    if len(a.tolist()) != n: return f'len() is {n} but tolist() has {len(a.tolist())} items'
+    return None
+
+def run_dtypespell(c):
+    import bitstring, array
+    from bitstring import Bits, BitArray, ConstBitStream, BitStream, Array, Dtype, pack
+    route = c['route']
+    bitstring.options.lsb0 = bool(c['lsb0'])
+    vals = [mat(v, None) for v in c['vals']]
+    base = Array(c['adtype'], bytes(range(c['nbytes'])), trailing_bits=Bits(bin=c['trail']) if c['trail'] else None)       # the Array whose dtype is reassigned / converted / printed
+    s = build(c['cls'], c['bits'], 'bin', c['pos'])
+    bitstring.options.lsb0 = bool(c['lsb0'])
+    trace = []
+    for sp in c['spells']:
+        kept, chk = [], []
+        def f():
+            if route == 'array_arrayarray':
+                tc, tg = sp['typecode'], sp['target']
+                aa = array.array(tc, [1, 2, 3] if tc not in 'uw' else 'abc')          # an unknown type code is array's own ValueError
+                a = Array(tg + tc if len(tg) == 1 else tg)
+                kept.append(a)
+                a.extend(aa)
+                a2 = Array(tg + tc if len(tg) == 1 else tg, aa); kept.append(a2)
+                return [a.equals(aa), a2.equals(aa), Array('uint8', [1, 2, 3]).equals(aa)]
+            v = mk_spell(sp)
+            if route.startswith('array_ctor'):
+                if route == 'array_ctor': r = Array(v)
+                elif route == 'array_ctor_vals': r = Array(v, vals)
+                elif route == 'array_ctor_n': r = Array(v, 3)
+                elif route == 'array_ctor_bytes': r = Array(v, bytes(range(16)))
+                elif route == 'array_ctor_kw': r = Array(dtype=v, initializer=vals)
+                elif route == 'array_ctor_bits': r = Array(v, Bits(bin=c['bits']))
+                elif route == 'array_ctor_trailing': r = Array(v, vals, trailing_bits='0b101')
+                else: r = Array(v, base)
+                kept.append(r); return str(r.dtype)
+            if route in ('dtype_setter', 'astype', 'array_pp'):
+                before = (base.data.bin, str(base.dtype), base.dtype.scale)
+                def after(ok):
+                    now = (base.data.bin, str(base.dtype), base.dtype.scale)
+                    if now[0] != before[0]: return 'the data of the Array changed'
+                    if (route != 'dtype_setter' or not ok) and now != before: return f'the dtype of the Array changed from {before[1:]} to {now[1:]}' + ('' if ok else ' although the call was refused')
+                chk.append(after)
+                if route == 'dtype_setter': base.dtype = v; return str(base.dtype)
+                if route == 'astype': r = base.astype(v); kept.append(r); return str(r.dtype)
+                buf = io.StringIO(); base.pp(v, stream=buf); return len(buf.getvalue())
+            if route.startswith('dtype_'):
+                if route == 'dtype_new': d = Dtype(v)
+                elif route == 'dtype_new_scale': d = Dtype(v, scale=vals[0] if vals and isinstance(vals[0], (int, float)) else 2)
+                elif route == 'dtype_name_len':
+                    m = re.fullmatch(r'\s*([^\d:]*?)\s*:?\s*(\d+)\s*', v)
+                    d = Dtype(m.group(1), int(m.group(2))) if m else Dtype(v, 8)
+                elif route == 'dtype_kw':
+                    m = re.fullmatch(r'\s*([^\d:]*?)\s*:?\s*(\d+)\s*', v)
+                    d = Dtype(m.group(1), length=int(m.group(2)), scale=None) if m else Dtype(v, length=None, scale=None)
+                elif route == 'dtype_twice': d = Dtype(Dtype(v)); d = Dtype(str(d)) if d.scale is None else Dtype(d)
+                else: d = Dtype(v)
+                out = [str(d), repr(d), d.name, d.length, d.bitlength, d.bits_per_item, d.variable_length, str(d.return_type), d.is_signed, repr(d.scale), hash(d), d == d, d == v, d != 'uint8']
+                if not (d.bitlength is None or isinstance(d.bitlength, int) and d.bitlength >= 0): raise AssertionError(f'bitlength {d.bitlength!r}')
+                if route == 'dtype_build_parse':
+                    for x in (vals or [0]):
+                        b = d.build(x); kept.append(b)
+                        y = d.parse(b); kept.append(y)
+                    d.parse(Bits(bin=c['bits']))
+                return out[:2]
+            before = (s.bin, getattr(s, 'pos', None) if isinstance(s, ConstBitStream) else None)
+            def after(ok):
+                if route not in MUTABLE_ONLY and s.bin != before[0]: return f'the content of the {type(s).__name__} changed'
+                if not ok and s.bin != before[0]: return f'the call was refused but the content of the {type(s).__name__} changed'
+                if isinstance(s, ConstBitStream):
+                    if not ok and s.pos != before[1]: return f'the call was refused but the position moved from {before[1]} to {s.pos}'
+                    if route not in ('read', 'readlist', 'readlist_list') and route not in MUTABLE_ONLY and s.pos != before[1]: return f'the position moved from {before[1]} to {s.pos}'
+            chk.append(after)
+            x0 = vals[0] if vals else 1
+            if route == 'unpack': r = s.unpack(v)
+            elif route == 'unpack_list': r = s.unpack([v, 'bits'] if not isinstance(v, str) or len(v) % 2 else [v])
+            elif route == 'unpack_kwlen':
+                m = re.fullmatch(r'\s*([^\d:]*?)\s*:?\s*(\d+)\s*', v)
+                r = s.unpack(f'{m.group(1)}:n', n=int(m.group(2))) if m else s.unpack(v + ':n', n=8)
+            elif route == 'read': r = s.read(v)
+            elif route == 'peek': r = s.peek(v)
+            elif route == 'readlist': r = s.readlist(v)
+            elif route == 'readlist_list': r = s.readlist([v, 1])
+            elif route == 'peeklist': r = s.peeklist([v])
+            elif route == 'pack': r = pack(v, *(vals[:1] if len(vals) % 2 else vals))
+            elif route == 'pack_list': r = pack([v, 'bool'], x0, True)
+            elif route == 'pack_kw': r = pack(v + '=val', val=x0)
+            elif route == 'pack_kwlen':
+                m = re.fullmatch(r'\s*([^\d:]*?)\s*:?\s*(\d+)\s*', v)
+                r = pack(f'{m.group(1)}:n=val', n=int(m.group(2)), val=x0) if m else pack(v + ':n', x0, n=8)
+            elif route == 'ctor_token': r = type(s)(v + '=' + str(x0 if not isinstance(x0, (Bits, bytes)) else 1))
+            elif route == 'fromstring': r = type(s).fromstring(v + '=' + str(x0 if not isinstance(x0, (Bits, bytes)) else 1))
+            elif route == 'add_token': r = s + (v + '=' + str(x0 if not isinstance(x0, (Bits, bytes)) else 1))
+            elif route == 'ctor_kw': r = type(s)(**{v: x0})
+            elif route == 'ctor_kw_len':
+                m = re.fullmatch(r'\s*([^\d:]*?)\s*:?\s*(\d+)\s*', v)
+                r = type(s)(**{m.group(1): x0}, length=int(m.group(2))) if m else type(s)(**{v: x0}, length=8)
+            elif route == 'getattr': r = getattr(s, v)
+            elif route == 'setattr': r = setattr(s, v, x0)
+            elif route == 'bits_pp':
+                buf = io.StringIO(); s.pp(v, stream=buf); r = len(buf.getvalue())
+            elif route == 'byteswap': r = s.byteswap(v)
+            else: raise AssertionError(route)
+            kept.append(r)
+            return str(type(r).__name__)
+        r = attempt(f, 5)
+        def g():
+            msgs = [m for fn in chk for m in [fn(r[0] == 'ok')] if m]
+            for what, o in (('the Array', base), ('the receiver', s)):
+                m = probe(o)
+                if m: msgs.append(f'{what} is not a valid object afterwards: ' + m)
+            m = array_facts(base)
+            if m: msgs.append('the Array is not a valid object afterwards: ' + m)
+            for x in collect(kept):
+                m = probe(x, mutate=x is not s and x is not base and x is not base.data)
+                if m is None and isinstance(x, Array): m = array_facts(x)
+                if m: msgs.append(('the returned object' if r[0] == 'ok' else 'an object the refused call had built') + ' is not a valid object: ' + m)
+            return msgs
+        pr = attempt(g, 10)
+        msgs = pr[1] if pr[0] == 'ok' else [f'probing the objects of the call raised {pr[1]}']
+        o = bitstring.options
+        trace.append([list(r) if r[0] == 'err' else ['ok', str(r[1])[:60]], [o.lsb0, o.bytealigned, o.mxfp_overflow], msgs[:3]])
+        bitstring.options.lsb0 = bool(c['lsb0']); bitstring.options.bytealigned = False; bitstring.options.mxfp_overflow = 'saturate'
+    return ('ok', trace)
+
+def oracle_dtypespell(c, obs):
+    if obs[0] != 'ok': return f"the dtype-spelling case {str(c)[:300]} could not be observed: {obs[1]}"
+    route = c['route']
+    for sp, (r, opts, msgs) in zip(c['spells'], obs[1]):
+        shown = repr(sp['str']) if 'str' in sp else (f"array.array type code {sp['typecode']!r} with an Array of dtype {(sp['target'] + sp['typecode']) if len(sp['target']) == 1 else sp['target']!r}" if 'typecode' in sp
+                                                       else f"Dtype{tuple(sp['dtype'])} (call shape '{sp['style']}')")
+        ctx = (f"existing Array of dtype {c['adtype']!r} with {c['nbytes']} bytes + {len(c['trail'])} trailing bits" if route in ('dtype_setter', 'astype', 'array_pp', 'array_ctor_array') else
+               f"values {c['vals']}" if route in ARRAY_ROUTES + DTYPE_ROUTES else f"receiver: {c['cls']} of {len(c['bits'])} bits at pos {c['pos']}; values {c['vals']}")
+        where = f"dtype / format spelling {shown} handed to route '{route}' ({ctx}; lsb0={c['lsb0']})"
+        if r[0] == 'err' and r[1] not in ALLOWED:
+            text = sp.get('str', '') if 'str' in sp else str(sp.get('dtype'))
+            feasible = not re.search(r'\d{5,}|e\+?\d{2,}|inf|nan', text)
+            if r[1] == 'AttributeError' and route in ATTR_ROUTES: pass            # an attribute that does not exist
+            elif r[1] in ('OverflowError', 'Other:MemoryError') and not feasible: pass
+            elif r[1] == 'OverflowError' and c['vals'] == [1e40]: pass           # a value no format can hold
+            else: return f"{where} raised {r[1]}"
+        if msgs: return f"{where} ({'raised ' + r[1] if r[0] == 'err' else 'returned ' + str(r[1])}): {msgs[0]}"
+        if opts != [bool(c['lsb0']), False, 'saturate']: return f"{where} left the module options as {opts}"
+    return None
 
 def kind(c): return c['op'] + ':' + c.get('cls', '')
 
@@ -438,6 +703,7 @@ def run_impl(c):
             trace.append([before[1:], list(r) if r[0] == 'err' else ['ok', str(r[1])[:40]], mid[1:], [o.lsb0, o.bytealigned, o.mxfp_overflow], msgs[:3]])
             bitstring.options.lsb0 = c['lsb0']; bitstring.options.bytealigned = False; bitstring.options.mxfp_overflow = 'saturate'
         return ('ok', trace)
+    if op == 'dtypespell': return run_dtypespell(c)
     if op == 'dtypecall':
         def f():
             kw = {} if c['scale'] is None else {'scale': c['scale']}
@@ -528,6 +794,7 @@ def oracle(c, obs):
             return f"pack({c['fmt']}, {c['vals']}) (lsb0={c.get('lsb0')}) changed an immutable operand or the cached parse of a string operand (possibly once its result was mutated)"
         return None
     if op == 'derive': return oracle_derive(c, obs)
+    if op == 'dtypespell': return oracle_dtypespell(c, obs)
     if obs[0] != 'ok': return f"the objects of the program {str(c)[:300]} could not be observed: {obs[1]}"
     for st, (before, r, after, opts, frozen_ok, *more) in zip(c['steps'], obs[1]):
         where = f"{c['cls']}({before[1][:40]!r}, pos={before[3]}, lsb0={c['lsb0']}).{st.get('name', st['k'])}" + (f"({st.get('args')}, {st.get('kwargs')})" if st['k'] == 'call' else f" {st['k']} {st.get('v')}")
@@ -559,12 +826,13 @@ def oracle_derive(c, obs):
     return None
 
 def nontrivial(c, obs):
+    if c['op'] == 'dtypespell': return obs[0] == 'ok' and any(t[0][0] == 'err' for t in obs[1])
     return obs[0] == 'err' or (c['op'] in ('program', 'derive') and any(t[1][0] == 'err' for t in obs[1]))
 def classify(c, obs): return None
 def coq_check(c, obs): return None
 
 def evals(cases, observed):
-    return sum(len(o[1]) if c['op'] in ('program', 'derive') and o[0] == 'ok' else 1 for c, o in zip(cases, observed))
+    return sum(len(o[1]) if c['op'] in ('program', 'derive', 'dtypespell') and o[0] == 'ok' else 1 for c, o in zip(cases, observed))
 
 def search(seeds, rng):
     for c in list(seeds) + list(gen_cases(rng, 'quick')):
